@@ -10,12 +10,19 @@ Decided:
   R11.b  add() is atomic: every call that can fail at bind time (cast_to_route_factory, bind, bind_all)
          strictly precedes the first mutation of self.routes on every path; after the first insertion only
          insertions and index arithmetic follow;
-  R11.c  contiguous insertion at a running index (= R06.a);
+  R11.c  who may write a routing table (= R06.a; private helpers a permitted writer was split into count as that
+         writer), and the requested index is honoured: the first new route goes to ``index`` when one was given (0
+         included) and to len(self.routes) otherwise, whichever way the position is carried;
   R11.d  process-wide state inventory: every write to a module-level object anywhere in the package is in
          the frozen table (request-id counter advanced in _dispatch_wsgi; converter tables written by
          _register_converter, called at import only; ERROR_CODE_MAP/__all__ by _module_init, import only;
          linecache.cache in compile_code keyed by content hash).
 Declined: behavioural equality of responses before/after (needs running); state inside third-party objects.
+
+Values are judged where they flow (``effects.Flow``: reaching definitions, path conditions), not by the name of the local
+that carries them: "self.resources is a copy" looks at every value that can reach the attribute, "writes only fresh
+objects" at the definitions reaching the write, and helpers a function was split into are followed (inlined by the
+front-end, or accepted as part of the function when nothing else refers to them).
 """
 import ast
 
